@@ -42,6 +42,9 @@ RULE = ('kernel cases: seeded record columns of 2-12 surfaces, sphere centres ne
         'lossy lenses (coating T<1 / clipping RadialAperture / absorbing glass, intensities in [0,1)): OPD, ZernikeOPD, OPDFan, Wavefront, '
         'RmsWavefrontErrorVsField objects queried through every public call in shuffled order with repeats, re-compared with the oracle after each step; '
         'dispersive object-space media (AbbeMaterial / catalogue glass on surface 0, infinite object, off-axis, non-primary wavelengths); '
+        'construction histories x routes (fields entered before set_field_type, field type changed after the fields, settings repeated; '
+        'ready-made Surface objects, reused Optic after reset(), to_dict/from_dict once and twice, save/load file): fixed corpus of 5 lenses through '
+        'all 24 combinations, random lenses through 3 random ones, off-axis OPD against the oracle and against the plainly built lens; '
         'non-trivial = finite reported OPD on a distinct (lens, field, wavelength, distribution)')
 PARTIAL = [
     'the optical path recorded by the trace (sum of n*length) is C02\'s theorem, here a hypothesis of the model (ropd)',
